@@ -179,6 +179,19 @@ def _task(arg):
                     acc.outcome(f"{origin}: immutable value object")
             if cost == 1 and len(acc.samples) < 1:
                 acc.sample({"class": ws.path, "wire": short(w, 200), "checks": "setattr/delattr/new attr, hash, ==, copy, deepcopy, replace, pickle 0-5, on constructed and decoded instances"})
+        # one more deviation per string / bytes / records slot: a payload of 2 MiB + 4321 bytes, decoded copy only
+        # (a reader that hands out its own large scratch buffer instead of an immutable copy shows only beyond some size)
+        for hn, w in enumerate(values.huge_instances(ex.tree)):
+            acc.add("instances")
+            acc.add("huge_payload_instances")
+            case = {"class": ws.path, "wire": w, "origin": "decoded-huge"}
+            try:
+                d = entity_reader(cls)(io.BytesIO(kio_encode(cls, bridge.to_entity(ws, w))))
+            except Exception:  # noqa: BLE001 - accepting it is C01/C03's business
+                acc.outcome("decoded-huge: rejected (counted)")
+                continue
+            if dynamic_checks(d, lambda: bridge.to_entity(ws, w), ws.path, case, acc, (idx, 1, 10**7 + hn), "decoded-huge"):
+                acc.outcome("decoded-huge: immutable value object")
         acc.add("classes")
         if ex.capped:
             acc.caps.append(f"{ws.path}: instance cap hit, completed k={ex.k}")
@@ -266,7 +279,8 @@ def run_c15(tier):
     c["distinct_nontrivial"] = c.get("instances", 0)
     c["rule"] = (f"all {len(all_classes())} entity classes and the 4 record classes: static dataclass options (frozen, eq, slots = fields, "
                  f"no __dict__, hashable); for every instance within k<={cfg['k']} deviations, its decoded copy and what the decoder returns "
-                 "from a 3-byte-dribbling raw source (if anything): setattr / delattr on every field and setattr of a new name are rejected and "
+                 "from a 3-byte-dribbling raw source (if anything), and for the decoded copy of the base instance with a 2 MiB + 4321 "
+                 "byte payload in each string / bytes / records slot in turn: setattr / delattr on every field and setattr of a new name are rejected and "
                  "leave the instance equal to an independently built twin; field values immutable recursively; hash equal for equal instances; "
                  "== along every deviation edge is exactly field-wise equality; copy, deepcopy, dataclasses.replace and pickle (all protocols) "
                  "give equal instances of the same class and leave the original unchanged")
